@@ -6,7 +6,11 @@
     callee prefix, callee chains, inline FunctionDef, oraclize wrappers; callees - inline and defs=,
     several statements, tuple/Qint results, nested calls - whose parameters / locals / own names
     look like the library's internal names: `_ret...`, `_<name>`/`__...`, `anc_...`, `TRUE`/`FALSE`,
-    `_iftarg...`, `_temptup`, the caller's names, `<callee>_<name>`).  Oracle: the Python
+    `_iftarg...`, `_temptup`, the caller's names, `<callee>_<name>`; NAME HISTORIES of the callee
+    environment: one function name bound 1..4 times - duplicates in defs=, an inline def after a defs=
+    entry, inline redefinition between two calls - under a plain name, the name of a type, of a builtin,
+    of an argument / a local of the caller, of the caller itself, every binding with another body,
+    the calls chained so that the definition each call reached shows in the table).  Oracle: the Python
     sources executed with plain bools/ints/tuples on ALL inputs (fixed-width wrap of the declared
     return type); the caller's expressions are evaluated by harness/bexp.py (not sympy); free
     symbols of the caller must be its argument bits or earlier definitions; the callee objects'
@@ -669,6 +673,260 @@ def hostile_random(rng, count):
     return out
 
 
+# --------------------------------------------------------------------------- name histories of the callee environment
+#
+# Which definition does a call reach?  In Python: the most recent binding of the name at the moment of the call (an
+# inline `def` shadows an entry of defs=, a later entry of defs= replaces an earlier one of the same name, a second
+# inline `def` replaces the first; a definition called like a type, a builtin, an argument, a local or the caller
+# itself shadows that).  A history is a sequence of events over ONE function name: D = an entry of defs=, I = an inline
+# `def` at this point of the caller, C = a call.  Every binding has a semantically different body, the calls are
+# chained (the result of one call is an argument of the next) so that the choice of definition at every call is
+# visible in the caller's truth table.  The oracle is the source executed by CPython; a refusal is never a failure.
+
+HISTORIES = [
+    # two bindings
+    "DD|C", "D|IC", "ICIC", "IIC", "D|ICC", "ICCIC", "DD|CC",
+    # three and four bindings
+    "DDD|C", "DD|IC", "D|IIC", "D|ICIC", "ICICIC", "ICIIC", "IIIC", "DD|ICIC", "IICIC",
+]
+# (a call BEFORE an inline `def` of the same name has no Python meaning - the name is a local of the caller from its
+# first line, the call raises UnboundLocalError whatever defs= holds - so no history has a C between a D and an I)
+HISTORIES_ONE = ["IC", "D|C", "ICC", "D|CC"]  # one binding (the name itself is the subject)
+
+NAMES_TYPE = ["Qint2", "Qint", "bool", "Qint4", "Qfixed", "Qchar", "Qlist", "Tuple"]
+NAMES_BUILTIN = ["len", "max", "min", "sum", "any", "all", "ord", "chr", "int", "float", "print", "range", "abs"]
+NAMES_SCOPE = ["w", "u", "caller"]  # an argument (never read), a local (copied before), the caller itself
+NAMES_PLAIN = ["h", "step", "f2"]
+
+
+def history_profiles():
+    """callee signatures; `bodies` are pairwise different functions; first/next give the chained actuals"""
+    return dict(
+        bb=dict(args=[("x", B), ("y", B)], ret=B, params=[["p", B], ["q", B], ["r", B]],
+                bodies=["x and y", "x ^ y", "x or y", "x and not y", "not (x or y)", "y if x else not y"],
+                first="{f}(p, q)", nxt=["{f}({t}, r)", "{f}(q, {t})", "{f}({t}, p)"]),
+        qq=dict(args=[("x", Q(2)), ("y", Q(2))], ret=Q(2), params=[["p", Q(2)], ["q", Q(2)], ["r", Q(2)]],
+                bodies=["x ^ y", "x + y", "(x ^ y) + 1", "x + 1", "y + y"],
+                first="{f}(p, q)", nxt=["{f}({t}, r)", "{f}(q, {t})", "{f}({t}, p)"]),
+        b=dict(args=[("x", B)], ret=B, params=[["p", B], ["q", B], ["r", B]],
+               bodies=["not x", "x", "x ^ x"],
+               first="{f}(p) ^ q", nxt=["{f}({t}) and r", "{f}({t} ^ q) or p", "{f}({t}) ^ r"]),
+        q=dict(args=[("x", Q(2))], ret=Q(2), params=[["p", Q(2)], ["q", Q(2)]],
+               bodies=["x + 1", "x ^ 2", "x + 3", "x ^ 1"],
+               first="{f}(p)", nxt=["{f}({t} ^ q)", "{f}({t}) + q", "{f}({t} + p)"]),
+        # constant actuals (a call of a name that is also a type is a typecast of a constant for the library)
+        qc=dict(args=[("x", Q(2))], ret=Q(2), params=[["p", Q(2)], ["q", Q(2)]],
+                bodies=["x + 1", "x ^ 2", "x + 3", "x ^ 1"],
+                first="{f}(1) ^ p", nxt=["{f}(2) + {t}", "{f}(3) ^ {t} ^ q", "{f}(0) + {t}"]),
+        t=dict(args=[("x", T(B, B))], ret=B, params=[["pp", T(B, B)], ["q", B], ["r", B]],
+               bodies=["x[0] and x[1]", "x[0] ^ x[1]", "x[0] or x[1]", "x[0] and not x[1]"],
+               first="{f}(pp)", nxt=["{f}(({t}, q))", "{f}((r, {t}))", "{f}(({t}, pp[0]))"]),
+        tq=dict(args=[("x", T(Q(2), Q(2)))], ret=Q(2), params=[["pp", T(Q(2), Q(2))], ["q", Q(2)]],
+                bodies=["x[0] ^ x[1]", "x[0] + x[1]", "x[1] + 1", "x[0]"],
+                first="{f}(pp)", nxt=["{f}(({t}, q))", "{f}((q, {t}))", "{f}(({t}, pp[0]))"]),
+    )
+
+
+def history_case(hist, f, prof_id, bodies, tag="history", distinct_names=False, first_wins=False):
+    """the (callees, caller) program of one history.  bodies[i] = body of the i-th binding.  distinct_names: every
+    binding gets its own name and every call names the binding Python would reach (the control: never refused)"""
+    prof = history_profiles()[prof_id]
+    params = [list(x) for x in prof["params"]]
+    if f in ("w",):
+        params.append(["w", B])  # an argument that is never read: the definition takes its name
+    pre = []
+    if f == "u":
+        # a local of the caller bound BEFORE the definition takes its name; its value was copied first
+        t0 = params[0][1]
+        pre = ["u = not p" if t0 == B else "u = p ^ 1" if is_q(t0) else "u = pp"]
+    cals, body = [], list(pre)
+    nb = ncall = 0
+    cur = None  # name a call reaches right now
+    last = None
+    evs = hist.replace("|", "")
+    for ev in evs:
+        if ev in "DI":
+            name = f"{f}_{nb + 1}" if distinct_names else f
+            c = callee(name, prof["args"], prof["ret"], [f"return {bodies[nb]}"])
+            nb += 1
+            cur = name if not (first_wins and cur) else cur
+            if ev == "D":
+                cals.append(c)
+            else:
+                body += c["src"].rstrip("\n").split("\n")
+        else:
+            pat = prof["first"] if last is None else prof["nxt"][(ncall - 1) % len(prof["nxt"])]
+            body.append(f"t{ncall} = " + pat.format(f=cur, t=last))
+            last = f"t{ncall}"
+            ncall += 1
+    body.append(f"return {last}")
+    info = dict(hist=hist, f=f, profile=prof_id, bodies=list(bodies[:nb]), bindings=nb, calls=ncall,
+                control=distinct_names)
+    kind = "defs" if cals else "inline"
+    return mk_case(cals, params, prof["ret"], body, f"{tag}-{hist}", kind=kind, history=info)
+
+
+def history_visible(case):
+    """does the choice of definition show in the truth table: the Python meaning (latest binding wins) differs from
+    'every call reaches the FIRST binding'.  Computed by CPython on the control program (distinct names)"""
+    h = case["history"]
+    if h["bindings"] < 2:
+        return True
+    try:
+        tabs = []
+        for first_wins in (False, True):
+            c = history_case(h["hist"], "zz", h["profile"], h["bodies"], distinct_names=True, first_wins=first_wins)
+            src = c["caller"]
+            ns = py_namespace()
+            for d in c["callees"]:
+                oexec(d["src"], ns)
+                ns[d["name"]] = wrapped(ns[d["name"]], d["ret"])
+            oexec(src, ns)
+            tabs.append(table_of_python(ns["caller"], c["params"], c["ret"]))
+        return tabs[0] != tabs[1]
+    except Exception:
+        return False
+
+
+def history_python_ok(case):
+    """has the program a Python meaning at all (a name of the caller's scope can make a call unreachable)"""
+    try:
+        ns = py_namespace()
+        for d in case["callees"]:
+            oexec(d["src"], ns)
+            ns[d["name"]] = wrapped(ns[d["name"]], d["ret"])
+        oexec(case["caller"], ns)
+        table_of_python(ns["caller"], case["params"], case["ret"])
+        return True
+    except Exception:
+        return False
+
+
+def history_distribution(sysc, rnd):
+    """the input distribution of the name-history family, for the evidence file"""
+    def fam(c):
+        f = c["history"]["f"]
+        return ("type" if f in NAMES_TYPE or f.startswith("Q") or f == "List" else "builtin" if f in NAMES_BUILTIN
+                else "scope" if f in NAMES_SCOPE + ["t0", "t1", "x", "y"] else "plain")
+
+    def dist(cs):
+        d = dict(cases=len(cs), by_bindings={}, by_history={}, by_name_family={}, by_profile={}, controls=0)
+        for c in cs:
+            h = c["history"]
+            for k, v in (("by_bindings", str(h["bindings"])), ("by_history", h["hist"]), ("by_name_family", fam(c)),
+                         ("by_profile", h["profile"])):
+                d[k][v] = d[k].get(v, 0) + 1
+            d["controls"] += 1 if h["control"] else 0
+        return d
+    return dict(systematic=dist(sysc), random=dist(rnd),
+                events="D = entry of defs=, I = inline def, C = call; | separates defs= from the caller's body",
+                names=dict(plain=NAMES_PLAIN, type=NAMES_TYPE, builtin=NAMES_BUILTIN, scope=NAMES_SCOPE))
+
+
+def history_profiles_for(f):
+    if f in ("len", "sum", "any", "all"):
+        return ["t", "tq", "b", "bb", "qc"]
+    if f in ("ord", "chr", "int", "float", "abs", "print", "range"):
+        return ["b", "q", "bb", "qc"]
+    if f in ("max", "min"):
+        return ["qq", "tq", "bb", "q", "qc"]
+    if f in NAMES_TYPE:
+        return ["qc", "bb", "q", "b"]
+    return ["bb", "qq", "t", "b"]
+
+
+def history_systematic(thorough=False):
+    """the same for every seed: (i) a plain name x every history x every profile (x two body rotations); (ii) the
+    control of every history (one name per binding: never refused); (iii) every special name (type, builtin,
+    argument, local, caller) x the one-binding histories x its profiles, and x the multi-binding histories by
+    rotation (thorough: all)"""
+    out, seen = [], set()
+    profs = history_profiles()
+
+    def add(c):
+        key = (c["caller"], json.dumps([x["src"] for x in c["callees"]]))
+        if key not in seen and history_visible(c):
+            seen.add(key)
+            out.append(c)
+
+    def bodies_of(pid, rot):
+        b = profs[pid]["bodies"]
+        return [b[(rot + i) % len(b)] for i in range(4)]
+
+    for hi, hist in enumerate(HISTORIES):
+        for pi, pid in enumerate(profs):
+            for rot in ((0, 1, 3) if thorough else (0, 1) if pid in ("bb", "qq") else ((hi + pi) % 3,)):
+                add(history_case(hist, NAMES_PLAIN[(hi + pi + rot) % len(NAMES_PLAIN)], pid, bodies_of(pid, rot)))
+        add(history_case(hist, "h", "bb", bodies_of("bb", hi), tag="history-control", distinct_names=True))
+        add(history_case(hist, "h", "tq", bodies_of("tq", hi), tag="history-control", distinct_names=True))
+    i = 0
+    for fam, names in (("type", NAMES_TYPE), ("builtin", NAMES_BUILTIN), ("scope", NAMES_SCOPE)):
+        for f in names:
+            pids = history_profiles_for(f)
+            # (a name of the caller's scope: a defs= entry of that name is shadowed by the argument / local / the caller
+            # itself in Python, so only the inline histories have a meaning)
+            one = [h for h in HISTORIES_ONE if fam != "scope" or "D" not in h]
+            many = [h for h in HISTORIES if fam != "scope" or "D" not in h]
+            for pid in pids:
+                for hist in one:
+                    i += 1
+                    add(history_case(hist, f, pid, bodies_of(pid, i), tag=f"history-{fam}"))
+            hs = many if thorough else [many[(i + 5 * j) % len(many)] for j in range(4)]
+            for j, hist in enumerate(hs):
+                i += 1
+                pid = pids[j % len(pids)]
+                add(history_case(hist, f, pid, bodies_of(pid, i), tag=f"history-{fam}"))
+    return out
+
+
+def history_random(rng, count):
+    """randomised variants: random event sequence (2..4 bindings, calls anywhere after the first binding, ends with a
+    call), random name (plain / type / builtin / scope / random identifier), random profile, bodies from the pool or
+    random boolean expressions"""
+    from . import progs
+    profs = history_profiles()
+    out = []
+    tries = 0
+    while len(out) < count and tries < 30 * count:
+        tries += 1
+        nb = rng.choice([1, 2, 2, 2, 3, 3, 4])
+        nd = rng.randint(0, min(nb, 3))
+        evs = "D" * nd + "|" if nd else ""
+        for k in range(nb - nd):
+            evs += "C" * rng.choice([0, 0, 1, 1, 2]) if (k or nd) else ""
+            evs += "I"
+        evs += "C" * rng.choice([1, 1, 2])
+        if evs.replace("|", "").count("C") > 4:
+            continue
+        r = rng.random()
+        if r < 0.4:
+            f = rng.choice(NAMES_PLAIN + ["g" + str(rng.randint(0, 99)), "hc", "_h", "fun"])
+        elif r < 0.6:
+            f = rng.choice(NAMES_TYPE + ["Qint3", "Qint8", "Qint16", "Qmatrix", "List"])
+        elif r < 0.85:
+            f = rng.choice(NAMES_BUILTIN)
+        else:
+            f = rng.choice(NAMES_SCOPE + ["t0", "t1", "x", "y"])
+        pid = rng.choice(history_profiles_for(f) + list(profs))
+        pool = list(profs[pid]["bodies"])
+        rng.shuffle(pool)
+        if pid == "bb" and rng.random() < 0.6:
+            pool = [progs.gen_bool_expr(rng, ["x", "y"], 2) for _ in range(4)]
+        elif pid == "t" and rng.random() < 0.5:
+            pool = [progs.gen_bool_expr(rng, ["x[0]", "x[1]"], 2) for _ in range(4)]
+        bodies = [pool[i % len(pool)] for i in range(4)]
+        try:
+            c = history_case(evs, f, pid, bodies, tag="history-rnd")
+            ast.parse(c["caller"])
+        except (SyntaxError, KeyError, IndexError):
+            continue
+        if not history_visible(c) or (rng.random() < 0.9 and not history_python_ok(c)):
+            continue
+        c["shape"] = "rnd-history"
+        out.append(c)
+    return out
+
+
 NAME_POOL = ["x", "y", "z", "p", "q", "k", "m", "n", "u", "v", "w", "i", "j", "s", "t", "l", "o", "r"]
 
 
@@ -816,7 +1074,14 @@ class Instrument:
                 rec["orders"] = [[x.name for x in e.free_symbols] for _, e in deff[3]]
             except Exception as e:  # not modelled (e.g. quantum hybrid values)
                 rec = None
-            r = orig_bf(env_self, deff)
+            try:
+                r = orig_bf(env_self, deff)
+            except Exception as e:
+                # the definition is refused (a name of a type / a reserved name): the model must refuse it too
+                if rec is not None:
+                    rec["error"] = type(e).__name__
+                    log.records.append(rec)
+                raise
             if rec is not None:
                 try:
                     rec["after"] = [lf_json(d) for d in env_self.defs]
@@ -851,6 +1116,15 @@ class Instrument:
                     rec["ok"] = [bexp.to_json(x) for x in (v if isinstance(v, list) else [v])]
                     log.records.append(rec)
                 return r
+            if (isinstance(expr, ast.Call) and hasattr(expr.func, "id")
+                    and not env.know_type(expr.func.id) and expr.func.id not in ("int", "float")
+                    and any(d[0] == expr.func.id for d in env.defs)):
+                # the name is bound (several times) and the code does not resolve it: the model must say the same
+                try:
+                    log.records.append(dict(op="call", name=expr.func.id, src=ast.unparse(expr), actuals=[],
+                                            defs=[lf_json(d) for d in env.defs], unresolved=True))
+                except Exception:
+                    pass
             return orig_te(expr, env)
 
         envmod.Env.bind_function = bind_function
@@ -936,6 +1210,13 @@ def oracle_src(src):
     return ast.unparse(ast.fix_missing_locations(tree)) + "\n"
 
 
+def oexec(src, ns):
+    """run a source for the Python oracle; annotations are not evaluated (a definition of the case may be called
+    like a type they mention: `def Qint2(...)`, `def bool(...)`)"""
+    import __future__
+    exec(compile(oracle_src(src), "<oracle>", "exec", flags=__future__.annotations.compiler_flag, dont_inherit=True), ns)
+
+
 def table_of_python(fn, params, ret):
     rows = []
     for vals in itertools.product(*[tvalues(t) for _, t in params]):
@@ -1003,10 +1284,12 @@ def run_case(case):
     out = dict(status="ok", records=log.records, fail=None, error=None)
     ns = py_namespace()
     qfs = {}
-    fps = {}
+    qfl = []  # the callee objects in the order of defs= (the same name may occur several times)
+    fps = []
+    named = bool(case.get("hostile") or case.get("history"))
     try:
         for c in case["callees"]:
-            exec(oracle_src(c["src"]), ns)
+            oexec(c["src"], ns)
             ns[c["name"]] = wrapped(ns[c["name"]], c["ret"])
     except Exception as e:
         out.update(status="bad-case", error=f"{type(e).__name__}: {e}")
@@ -1019,9 +1302,23 @@ def run_case(case):
             except Exception as e:
                 out.update(status="callee-rejected", error=f"{type(e).__name__}: {e}")
                 return out
+            # the Python meaning of this very definition (a later entry of defs= may carry the same name)
+            cns = py_namespace()
+            try:
+                for d in case["callees"]:
+                    if d is c:
+                        break
+                    oexec(d["src"], cns)
+                    cns[d["name"]] = wrapped(cns[d["name"]], d["ret"])
+                oexec(c["src"], cns)
+                cfn = wrapped(cns[c["name"]], c["ret"])
+            except Exception as e:
+                out.update(status="bad-case", error=f"{type(e).__name__}: {e}")
+                return out
             qfs[c["name"]] = qf
-            j = judge_qf(qf, ns[c["name"]], c["args"], c["ret"])
-            if j is not None and not c["deps"] and not case.get("hostile"):
+            qfl.append(qf)
+            j = judge_qf(qf, cfn, c["args"], c["ret"])
+            if j is not None and not c["deps"] and not named:
                 out.update(status="callee-bad", error=j["what"])
                 return out
             if j is not None:
@@ -1031,7 +1328,7 @@ def run_case(case):
                            failed=dict(name=c["name"], src=c["src"], params=c["args"], ret=c["ret"], deps=c["deps"],
                                        wrap=True))
                 return out
-            fps[c["name"]] = fingerprint(qf)
+            fps.append(fingerprint(qf))
         n_callee_records = len(log.records)
         if case["kind"] == "oraclize":
             from qlasskit.algorithms import oraclize
@@ -1063,7 +1360,7 @@ def run_case(case):
         else:
             py_ok = True
             try:
-                exec(oracle_src(case["caller"]), ns)
+                oexec(case["caller"], ns)
                 want_fn = ns["caller"]
                 # a caller Python itself rejects on some input has no meaning to compare with
                 table_of_python(want_fn, case["params"], case["ret"])
@@ -1071,7 +1368,7 @@ def run_case(case):
                 py_ok = False
                 out.update(status="python-rejects", error=f"python: {type(e).__name__}: {e}")
             try:
-                qc = qlassf(case["caller"], defs=[qfs[c["name"]] for c in case["callees"]], to_compile=False)
+                qc = qlassf(case["caller"], defs=list(qfl), to_compile=False)
             except Exception as e:
                 if py_ok:
                     out.update(status="rejected", error=f"{type(e).__name__}: {str(e)[:120]}")
@@ -1083,11 +1380,10 @@ def run_case(case):
                                failed=dict(name="caller", src=case["caller"], params=case["params"], ret=case["ret"],
                                            deps=[c["name"] for c in case["callees"]], wrap=False))
         # the callee objects are unchanged
-        for c in case["callees"]:
-            if fingerprint(qfs[c["name"]]) != fps[c["name"]] and out["status"] != "fail":
+        for c, qf, fp in zip(case["callees"], qfl, fps):
+            if fingerprint(qf) != fp and out["status"] != "fail":
                 out.update(status="fail", fail=dict(what="the callee object changed", callee=c["name"],
-                                                   before=fps[c["name"]][:300],
-                                                   after=fingerprint(qfs[c["name"]])[:300]))
+                                                   before=fp[:300], after=fingerprint(qf)[:300]))
     out["n_callee_records"] = n_callee_records
     return out
 
@@ -1322,9 +1618,15 @@ def reply_matches(rec, rep, stats):
     if "driver_error" in rep:
         return False
     if rec["op"] == "bind":
+        if "error" in rec or "error" in rep:
+            return rep.get("error") == rec.get("error")
         m, c = rep["defs"], rec["after"]
         return len(m) == len(c) and all(fun_equal(x, y, stats) for x, y in zip(m, c))
     if rec["op"] == "call":
+        if rec.get("unresolved"):
+            return rep.get("known") is False
+        if rep.get("known") is False:
+            return False
         if "error" in rec:
             return rep.get("error") == rec["error"]
         if "ok" not in rep:
@@ -1339,6 +1641,8 @@ def replies_same(op, a, b):
     if "driver_error" in a or "driver_error" in b:
         return False
     if op == "bind":
+        if "error" in a or "error" in b:
+            return a.get("error") == b.get("error")
         return len(a["defs"]) == len(b["defs"]) and all(fun_equal(x, y, stats) for x, y in zip(a["defs"], b["defs"]))
     if op == "call":
         if ("ok" in a) != ("ok" in b):
@@ -1486,9 +1790,12 @@ def run_synthetic(case):
     for n in names:
         env.bind(Arg(n, bool, [n]))
     with Instrument(log):
-        env.bind_function(copy.deepcopy(lf))
-        if case.get("twice"):
+        try:
             env.bind_function(copy.deepcopy(lf))
+            if case.get("twice"):
+                env.bind_function(copy.deepcopy(lf))
+        except Exception as e:  # a library that refuses the definition (e.g. one called like a type)
+            return dict(status="rejected-bind:" + type(e).__name__, records=log.records, recs=log.records)
         src = f"{case['fname']}(" + ", ".join(py_of_json(a) for a in case["actuals"]) + ")"
         expr = ast.parse(src, mode="eval").body
         from qlasskit import ast2logic
@@ -1549,6 +1856,17 @@ def run(ctx: Ctx) -> Result:
     for i in range(0, len(hsys), 100):
         check_cases(ctx, res, hsys[i:i + 100], "sys")
     ctx.log(f"[C07] systematic, internal-looking names: {len(hsys)} cases {time.time() - t1:.1f}s")
+    t1 = time.time()
+    hist = history_systematic(ctx.thorough)
+    for i in range(0, len(hist), 100):
+        check_cases(ctx, res, hist[i:i + 100], "sys")
+    ctx.log(f"[C07] systematic, name histories: {len(hist)} cases {time.time() - t1:.1f}s")
+    t1 = time.time()
+    hrn = history_random(ctx.rng, 600 if ctx.thorough else 60)
+    for i in range(0, len(hrn), 100):
+        check_cases(ctx, res, hrn[i:i + 100], "rnd")
+    ctx.log(f"[C07] random, name histories: {len(hrn)} cases {time.time() - t1:.1f}s")
+    res.extra["name_histories"] = history_distribution(hist, hrn)
     t1 = time.time()
     hrnd = hostile_random(ctx.rng, 600 if ctx.thorough else 40)
     for i in range(0, len(hrnd), 100):
